@@ -523,6 +523,7 @@ type nativeCase struct {
 	Hang     bool       `json:"hang"` // expected to block: run alone in its own process under a short watchdog
 	Skip     bool       `json:"skip"`
 	Race     bool       `json:"race"` // lockset report: run alone under the race detector
+	Shared   bool       `json:"shared"` // ... the report is a store under a read lock: the touchers only read, under read locks
 }
 
 type nativeOut struct {
@@ -595,6 +596,11 @@ func runNative(cases []nativeCase, names []string, tag string) ([]nativeOut, str
 	return outs, log, nil
 }
 
+// sharedStore: the lockset report is a store made with the lock held in shared mode only.
+func sharedStore(kind, msg string) bool {
+	return kind == "unguarded" && strings.Contains(msg, "under a read lock")
+}
+
 // raceConfirms: the race detector reported a race, and the function in which the engine saw
 // the unguarded access appears in the report.
 func raceConfirms(log, where string) bool {
@@ -659,7 +665,7 @@ func replayFile(path string) int {
 		fmt.Fprintln(os.Stderr, err)
 		return 2
 	}
-	outs, log, err := runNative([]nativeCase{{Harness: d.Harness, Vector: d.Vector, Realtime: true, Tier: d.Tier, Hang: d.Kind == "blocked", Race: d.Kind == "unguarded"}}, allHarnessNames(pkg), "replay")
+	outs, log, err := runNative([]nativeCase{{Harness: d.Harness, Vector: d.Vector, Realtime: true, Tier: d.Tier, Hang: d.Kind == "blocked", Race: d.Kind == "unguarded", Shared: sharedStore(d.Kind, d.Msg)}}, allHarnessNames(pkg), "replay")
 	if err != nil {
 		fmt.Fprintln(os.Stderr, err, log)
 		return 2
@@ -703,12 +709,12 @@ func finish(prop string, tier, seed int, partial bool, results []HarnessResult, 
 		}
 		for j := range r.Violations {
 			blk, race := r.Violations[j].Kind == "blocked", r.Violations[j].Kind == "unguarded"
-			cases = append(cases, nativeCase{Harness: r.Name, Vector: r.Violations[j].Vector, Realtime: true, Tier: tier, Hang: blk, Race: race, Skip: blk || race})
+			cases = append(cases, nativeCase{Harness: r.Name, Vector: r.Violations[j].Vector, Realtime: true, Tier: tier, Hang: blk, Race: race, Shared: sharedStore(r.Violations[j].Kind, r.Violations[j].Msg), Skip: blk || race})
 			refs = append(refs, caseRef{res: r, viol: &r.Violations[j]})
 		}
 		for j := range r.Known {
 			blk, race := r.Known[j].Kind == "blocked", r.Known[j].Kind == "unguarded"
-			cases = append(cases, nativeCase{Harness: r.Name, Vector: r.Known[j].Vector, Realtime: true, Tier: tier, Hang: blk, Race: race, Skip: blk || race})
+			cases = append(cases, nativeCase{Harness: r.Name, Vector: r.Known[j].Vector, Realtime: true, Tier: tier, Hang: blk, Race: race, Shared: sharedStore(r.Known[j].Kind, r.Known[j].Msg), Skip: blk || race})
 			refs = append(refs, caseRef{res: r, viol: &r.Known[j], knwn: true})
 		}
 		if r.EngineError != "" {
